@@ -265,7 +265,8 @@ func c01RunAll(outDir string, cs []c01Case) [][]Failure {
 			sem <- struct{}{}
 			defer func() { <-sem }()
 			todo := idx
-			for attempt := 0; len(todo) > 0 && attempt < 4; attempt++ {
+			startupRetries := 0
+			for attempt := 0; len(todo) > 0 && attempt < 4+startupRetries; attempt++ {
 				batch := make([]c01Case, len(todo))
 				for j, i := range todo {
 					batch[j] = cs[i]
@@ -273,6 +274,13 @@ func c01RunAll(outDir string, cs []c01Case) [][]Failure {
 				dir := filepath.Join(outDir, fmt.Sprintf("c01-g%d-a%d", gi, attempt))
 				os.MkdirAll(dir, 0o755)
 				res, done, diag := c01RunChild(dir, batch)
+				if done < 0 { // the child could not bring up its server (port taken, ...): no case was run; start another
+					if startupRetries < 5 {
+						startupRetries++
+						continue
+					}
+					done = 0
+				}
 				mu.Lock()
 				for j := 0; j < done && j < len(res.Cases); j++ {
 					cs[todo[j]] = res.Cases[j]
@@ -333,6 +341,9 @@ func c01RunChild(dir string, batch []c01Case) (res c01ChildOut, done int, diag s
 	}
 	if ob, err := os.ReadFile(out); err == nil && json.Unmarshal(ob, &res) == nil && werr == nil {
 		return res, len(batch), ""
+	}
+	if sb, err := os.ReadFile(out + ".startup"); err == nil {
+		return res, -1, "server startup failed: " + string(sb)
 	}
 	// partial progress: cases completed before the death
 	if pb, err := os.ReadFile(out + ".partial"); err == nil {
